@@ -1135,6 +1135,39 @@ def sarray(values, ldtype=None):
     return out
 
 
+MIN_ATOMS = {}  # id -> (If-term created by np.minimum on log values, exp(u), exp(v))
+
+
+def abstract_mins(term, prefix="mu"):
+    """replace every exp(min(u, v)) atom inside `term` by a fresh variable.
+    returns (term', [(mu, exp_u, exp_v)])"""
+    found = []
+    seen = set()
+
+    def walk(t):
+        k = t.get_id()
+        if k in seen:
+            return
+        seen.add(k)
+        if k in MIN_ATOMS and MIN_ATOMS[k][0].eq(t):
+            found.append(MIN_ATOMS[k])
+            return
+        for ch in t.children():
+            walk(ch)
+
+    walk(term)
+    subs = []
+    out = []
+    for i, (t, up, vp) in enumerate(found):
+        mu = z3.Real("%s!%d" % (prefix, t.get_id()))
+        subs.append((t, mu))
+        # normalise to (mu, ratio, other): for min(1, r) the constant 1 goes last
+        if z3.is_rational_value(up) and not z3.is_rational_value(vp):
+            up, vp = vp, up
+        out.append((mu, up, vp))
+    return (z3.substitute(term, *subs) if subs else term), out
+
+
 class _Random:
     """placeholder; harnesses install their own stubs (nbsym.stubs)"""
 
@@ -1354,6 +1387,7 @@ class _NP:
                 up, vp = u._pos(), v._pos()
                 if up is not None and vp is not None:
                     t = z3.If(c, up, vp)
+                    MIN_ATOMS[t.get_id()] = (t, up, vp)
                     return SymReal(lf=LogForm({t.get_id(): (t, 1)}), nan=u._nan(v))
             return SymReal(z3.If(c, u.e, v.e), nan=u._nan(v))
 
